@@ -29,7 +29,9 @@ def T_dir(entries=()):
 
 
 T_LINK = ("L",)       # a symbolic link to the directory OUTSIDE (next to DIR and DIR.old) which holds foreign files
+T_ULINK = ("U",)      # a symbolic link to the directory UOUT (next to DIR and DIR.old) which holds uftrace data
 OUTSIDE_FILES = [("precious.txt", b"do not lose me"), ("sub/deep.txt", b"nor me")]
+UOUT_FILES = [("info", b"Ftrace!\0\x04\0\0\0"), ("task.txt", b"SESS\n"), ("77.dat", b"0123456789abcdef")]
 
 
 def make_outside(root):
@@ -38,13 +40,20 @@ def make_outside(root):
     for n, b in OUTSIDE_FILES:
         with open(os.path.join(o, n), "wb") as f:
             f.write(b)
+    u = os.path.join(root, "UOUT")
+    os.makedirs(u, exist_ok=True)
+    for n, b in UOUT_FILES:
+        with open(os.path.join(u, n), "wb") as f:
+            f.write(b)
     return o
 
 
 def outside_intact(root):
     o = os.path.join(root, "OUTSIDE")
+    u = os.path.join(root, "UOUT")
     try:
-        return all(open(os.path.join(o, n), "rb").read() == b for n, b in OUTSIDE_FILES)
+        return (all(open(os.path.join(o, n), "rb").read() == b for n, b in OUTSIDE_FILES) and
+                (not os.path.lexists(u) or all(open(os.path.join(u, n), "rb").read() == b for n, b in UOUT_FILES)))
     except OSError:
         return False
 
@@ -52,14 +61,19 @@ def outside_intact(root):
 def materialise(path, t):
     if t is None:
         return
-    if t[0] == "L":
-        # relative link to <root>/OUTSIDE: DIR and DIR.old are direct children of <root>, their entries may be nested
+    if t[0] in ("L", "U"):
+        # relative link to <root>/OUTSIDE (or <root>/UOUT): DIR and DIR.old are direct children of <root>, their
+        # entries may be nested; DIR or DIR.old themselves may be such a link
+        target = "OUTSIDE" if t[0] == "L" else "UOUT"
+        if os.path.basename(path) in ("DIR", "DIR.old"):
+            os.symlink(target, path)
+            return
         depth = 0
         p = os.path.dirname(path)
         while os.path.basename(p) not in ("DIR", "DIR.old") and depth < 20:
             p = os.path.dirname(p)
             depth += 1
-        os.symlink(os.path.join(*([".."] * (depth + 1)), "OUTSIDE"), path)
+        os.symlink(os.path.join(*([".."] * (depth + 1)), target), path)
     elif t[0] == "F":
         with open(path, "wb") as f:
             f.write(t[1])
@@ -75,7 +89,7 @@ def snapshot(path, digest=False):
     if not os.path.lexists(path):
         return None
     if os.path.islink(path):
-        return T_LINK
+        return T_ULINK if os.readlink(path).endswith("UOUT") else T_LINK
     if os.path.isdir(path) and not os.path.islink(path):
         return ("D", [(n, snapshot(os.path.join(path, n), digest))
                       for n in sorted(os.listdir(path), key=lambda s: s.encode())])
@@ -90,6 +104,8 @@ def snapshot(path, digest=False):
 def coq_tree(t):
     if t[0] == "L":
         return "Link"
+    if t[0] == "U":
+        return "ULink"
     if t[0] == "F":
         return "File %s" % coq.coq_string(t[1])
     return "Dir [%s]" % "; ".join("(%s, %s)" % (coq.coq_string(n), coq_tree(c)) for n, c in t[1])
@@ -134,11 +150,15 @@ def shapes(rng):
         ("udata+nested-link", T_dir([("info", T_file(MAGIC)), ("d", T_dir([("ln", T_LINK), ("x", T_file(b"1"))]))])),
         ("link-only", T_dir([("ln", T_LINK)])),
         ("foreign+link", T_dir([("notes.txt", T_file(b"keep")), ("ln", T_LINK)])),
+        ("udata+ulink", T_dir([("info", T_file(MAGIC)), ("prev", T_ULINK)])),
+        # DIR / DIR.old themselves are symbolic links: to a foreign directory, to uftrace data elsewhere
+        ("toplink-foreign", T_LINK),
+        ("toplink-udata", T_ULINK),
     ]
 
 
 FOREIGN = {"bad-info", "bad-info+opts", "empty-info", "info-is-dir", "foreign", "foreign-nested", "nested-empty",
-           "file", "dot-only", "dot-file", "dotdot-names", "link-only", "foreign+link"}
+           "file", "dot-only", "dot-file", "dotdot-names", "link-only", "foreign+link", "toplink-foreign"}
 
 
 def gen_histories(ctx):
@@ -235,6 +255,8 @@ def jsonable(t):
         return None
     if t[0] == "L":
         return {"symlink": "../OUTSIDE"}
+    if t[0] == "U":
+        return {"symlink": "../UOUT (a uftrace data directory)"}
     if t[0] == "F":
         return {"file": t[1].hex()}
     return {"dir": {n: jsonable(c) for n, c in t[1]}}
@@ -262,8 +284,9 @@ def e2e(ctx, objdir):
     steps, hists = [], []
     sh_ = shapes(ctx.rng)
     picks = [(a, b) for a in sh_ for b in sh_ if a[0] in ("foreign", "file", "udata", "empty", "absent", "bad-info+opts", "opts-only", "dot-only",
-                                                           "udata+link")
-             and b[0] in ("absent", "foreign", "udata", "file", "dot-file", "udata+link", "udata+nested-link")]
+                                                           "udata+link", "toplink-udata")
+             and b[0] in ("absent", "foreign", "udata", "file", "dot-file", "udata+link", "udata+nested-link",
+                          "toplink-udata", "toplink-foreign")]
     if not ctx.thorough():
         picks = picks[::2]
     for a, b in picks:
@@ -294,7 +317,7 @@ def e2e(ctx, objdir):
                               {"mode": "e2e", "DIR": a[0], "DIR.old": b[0], "run": k}, True)
                 break
             others = sorted(os.listdir(work))
-            if [x for x in others if x not in ("DIR", "DIR.old", "OUTSIDE")]:
+            if [x for x in others if x not in ("DIR", "DIR.old", "OUTSIDE", "UOUT")]:
                 ctx.violation("record created stray entries next to DIR: %s" % others, {"DIR": a[0], "DIR.old": b[0]}, True)
         hists.append((first, (snapshot(d, True), snapshot(o, True))))
         ctx.case(key=("e2e", a[0], b[0]), tags=["e2e:DIR=" + a[0], "e2e:OLD=" + b[0]])
